@@ -448,6 +448,10 @@ func (i *interpreter) unlock(fr *frame, p *value) {
 		panic(runtimePanic{"sync: unlock of unlocked mutex at " + fr.pos(token.NoPos)})
 	}
 	m.locked = false
+	if i.pm.cfg.YieldUnlock {
+		// the window after a critical section (lookup -> open, reserve -> write)
+		i.yieldPoint("unlock")
+	}
 }
 
 func (i *interpreter) rlock(fr *frame, p *value) {
